@@ -158,6 +158,8 @@ pub struct ExecOut {
 }
 
 pub struct ExecPlan {
+    /// run through the analyzer's own process_parallel loop instead of calling dispatch directly
+    pub via_analyzer: bool,
     pub cfg: PoolCfg,
     /// frames each dispatcher thread hands to the pool, in order
     pub dispatchers: Vec<Vec<Vec<u8>>>,
@@ -218,6 +220,71 @@ pub fn exec(plan: &ExecPlan) -> Result<ExecOut, String> {
     Ok(out)
 }
 
+/// The same trace through the analyzer's own parallel packet loop (`with_config` + `init_pool` +
+/// `process_with` via hook H3) instead of direct `WorkerPool::dispatch` calls: this is what
+/// `analyze_pcap` / `analyze_network` run in parallel mode. After the loop returns the analyzer is
+/// dropped (which releases the pool) and the result channel is drained.
+pub fn exec_via_analyzer(plan: &ExecPlan) -> Result<ExecOut, String> {
+    use huginn_net_verif_rt::std::sync::mpsc;
+    verif_chan::evlog_reset();
+    verif_chan::reset_ids();
+    let c = &plan.cfg;
+    let frames: Vec<Vec<u8>> = plan.dispatchers.first().cloned().unwrap_or_default();
+    let mut out = ExecOut::default();
+    match c.kind {
+        PoolKind::Tcp => {
+            let (tx, rx) = mpsc::channel();
+            let mut a = huginn_net_tcp::HuginnNetTcp::with_config(if c.with_db { Some(sut::db()) } else { None }, c.cap, c.workers, c.queue, c.batch, c.timeout_ms).map_err(|e| format!("{}", e))?;
+            if let Some(f) = &c.filter {
+                a = a.with_filter(sut::filter_tcp(f));
+            }
+            a.init_pool(tx.clone()).map_err(|e| format!("{}", e))?;
+            let mut it = frames.into_iter();
+            a.verif_process_with(move || it.next().map(Ok), tx, None).map_err(|e| format!("{}", e))?;
+            if let Some(s) = a.stats() {
+                out.stats_after = StatsSnap { dispatched: s.total_dispatched, dropped: s.total_dropped, workers: s.workers.iter().map(|w| (w.queue_size, w.dropped)).collect() };
+            }
+            drop(a);
+            while let Ok(r) = rx.recv() {
+                out.results.push(sut::obs_tcp(&r));
+            }
+        }
+        PoolKind::Http => {
+            let (tx, rx) = mpsc::channel();
+            let mut a = huginn_net_http::HuginnNetHttp::with_config(if c.with_db { Some(sut::db()) } else { None }, c.cap, c.workers, c.queue, c.batch, c.timeout_ms).map_err(|e| format!("{}", e))?;
+            if let Some(f) = &c.filter {
+                a = a.with_filter(sut::filter_http(f));
+            }
+            a.init_pool(tx.clone()).map_err(|e| format!("{}", e))?;
+            let mut it = frames.into_iter();
+            a.verif_process_with(move || it.next().map(Ok), tx, None).map_err(|e| format!("{}", e))?;
+            if let Some(s) = a.stats() {
+                out.stats_after = StatsSnap { dispatched: s.total_dispatched, dropped: s.total_dropped, workers: s.workers.iter().map(|w| (w.queue_size, w.dropped)).collect() };
+            }
+            drop(a);
+            while let Ok(r) = rx.recv() {
+                out.results.push(sut::obs_http(&r));
+            }
+        }
+        PoolKind::Tls => {
+            let (tx, rx) = mpsc::channel();
+            let mut a = huginn_net_tls::HuginnNetTls::with_config_and_max_connections(c.workers, c.queue, c.batch, c.timeout_ms, c.cap);
+            if let Some(f) = &c.filter {
+                a = a.with_filter(sut::filter_tls(f));
+            }
+            let mut it = frames.into_iter();
+            a.verif_process_with(move || it.next().map(Ok), tx, None).map_err(|e| format!("{}", e))?;
+            drop(a);
+            while let Ok(r) = rx.recv() {
+                out.results.push(vec![sut::obs_tls(&r)]);
+            }
+        }
+    }
+    out.outcomes = vec![vec![]];
+    out.chan = verif_chan::evlog_snapshot();
+    Ok(out)
+}
+
 #[derive(Clone, Copy, Debug, Serialize, Deserialize, PartialEq, Eq)]
 pub enum Sched {
     Random,
@@ -251,7 +318,7 @@ pub fn run_plan(plan: Arc<ExecPlan>, seed: u64, sched: Sched, iters: usize) -> R
     // shuttle threads of one execution, which run on this OS thread)
     huginn_net_verif_rt::clock::arm(1_700_000_000_000);
     run_scheduled(seed, sched, iters, move || {
-        let r = exec(&plan);
+        let r = if plan.via_analyzer { exec_via_analyzer(&plan) } else { exec(&plan) };
         s2.lock().unwrap().push(r);
     });
     let v = std::mem::take(&mut *slot.lock().unwrap());
